@@ -61,9 +61,10 @@ VARIABLES cloud,    \* cloud[e]: [on, as] - interface attached, its addresses
           gcn,      \* gcn[p]: undisturbed passes that ended with the record of a vanished pod p still there
           apierr,   \* the API existence check fails at the moment
           conv,     \* the last pass changed nothing and nothing happened since
-          up        \* the daemon process is running
+          up,       \* the daemon process is running
+          dbf       \* pods whose ADD took an address and then failed at the database write (no record, no rollback yet)
 
-vars == <<cloud, pod, disk, wr, acked, rpc, gc, gcn, apierr, conv, up>>
+vars == <<cloud, pod, disk, wr, acked, rpc, gc, gcn, apierr, conv, up, dbf>>
 
 Open(r) == rpc[r].st \in {"called", "in", "outP", "outG"}
 InHandler(r) == rpc[r].st \in {"in", "outP", "outG"}
@@ -80,7 +81,7 @@ Init == /\ cloud = [e \in Enis |-> NoEni]
         /\ rpc = [r \in Rpcs |-> NoRpc]
         /\ gc = IdleGc
         /\ gcn = [p \in Pods |-> 0]
-        /\ apierr = FALSE /\ conv = FALSE /\ up = TRUE
+        /\ apierr = FALSE /\ conv = FALSE /\ up = TRUE /\ dbf = {}
 
 Reset(cl) == /\ cloud' = cl
              /\ pod' = [p \in Pods |-> NoPod]
@@ -90,7 +91,7 @@ Reset(cl) == /\ cloud' = cl
              /\ rpc' = [r \in Rpcs |-> NoRpc]
              /\ gc' = IdleGc
              /\ gcn' = [p \in Pods |-> 0]
-             /\ apierr' = FALSE /\ conv' = FALSE /\ up' = TRUE
+             /\ apierr' = FALSE /\ conv' = FALSE /\ up' = TRUE /\ dbf' = {}
 
 (* ---------------------------------------------------------------- environment *)
 
@@ -100,17 +101,22 @@ EnvPod(p, v) ==
     /\ pod' = [pod EXCEPT ![p] = v]
     /\ gcn' = [gcn EXCEPT ![p] = 0]
     /\ Disturb /\ conv' = FALSE
-    /\ UNCHANGED <<cloud, disk, wr, acked, rpc, apierr, up>>
+    /\ UNCHANGED <<cloud, disk, wr, acked, rpc, apierr, up, dbf>>
 
 EnvDetach(e) ==
     /\ cloud' = [cloud EXCEPT ![e] = NoEni]
     /\ conv' = FALSE
-    /\ UNCHANGED <<pod, disk, wr, acked, rpc, gc, gcn, apierr, up>>
+    /\ UNCHANGED <<pod, disk, wr, acked, rpc, gc, gcn, apierr, up, dbf>>
 
 EnvApiErr(on) ==
     /\ apierr' = on
     /\ Disturb /\ conv' = FALSE
-    /\ UNCHANGED <<cloud, pod, disk, wr, acked, rpc, gcn, up>>
+    /\ UNCHANGED <<cloud, pod, disk, wr, acked, rpc, gcn, up, dbf>>
+
+(* something outside the daemon's control goes wrong for a moment (e.g. netlink unusable): a pass running now is not undisturbed *)
+EnvDisturb ==
+    /\ Disturb /\ conv' = FALSE
+    /\ UNCHANGED <<cloud, pod, disk, wr, acked, rpc, gcn, apierr, up, dbf>>
 
 (* the pool changed the cloud: k in {"create", "assign", "unassign", "delete"} *)
 CloudEnd(k, e, as) ==
@@ -118,7 +124,7 @@ CloudEnd(k, e, as) ==
     /\ cloud' = [cloud EXCEPT ![e] = CASE k \in {"create", "assign"} -> [on |-> TRUE, as |-> @.as \cup as]
                                         [] k = "unassign" -> [@ EXCEPT !.as = @ \ as]
                                         [] OTHER -> NoEni]
-    /\ UNCHANGED <<pod, disk, wr, acked, rpc, gc, gcn, apierr, conv, up>>
+    /\ UNCHANGED <<pod, disk, wr, acked, rpc, gc, gcn, apierr, conv, up, dbf>>
 
 (* ---------------------------------------------------------------- CNI requests *)
 
@@ -128,7 +134,7 @@ RpcCall(r, k, p, c) ==
        rpc' = [q \in Rpcs |-> IF q = r THEN [NoRpc EXCEPT !.st = "called", !.k = k, !.p = p, !.c = c, !.ovl = ov]
                               ELSE IF Open(q) /\ rpc[q].p = p THEN [rpc[q] EXCEPT !.ovl = TRUE] ELSE rpc[q]]
     /\ conv' = FALSE
-    /\ UNCHANGED <<cloud, pod, disk, wr, acked, gc, gcn, apierr, up>>
+    /\ UNCHANGED <<cloud, pod, disk, wr, acked, gc, gcn, apierr, up, dbf>>
 
 (* The handler looked the pod up: it holds the pod's pending entry and the service lock (shared) now. *)
 GetPod(r, found, sticky) ==
@@ -142,7 +148,7 @@ GetPod(r, found, sticky) ==
              ELSE IF rpc[q].st = "in" /\ rpc[q].p = p THEN [rpc[q] EXCEPT !.st = "outP", !.snap = disk[p]]   \* it must have left
              ELSE rpc[q]]
     /\ gc' = IF gc.st = "in" THEN [gc EXCEPT !.st = "out"] ELSE gc                                   \* the pass must be over
-    /\ UNCHANGED <<cloud, pod, disk, wr, acked, gcn, apierr, conv, up>>
+    /\ UNCHANGED <<cloud, pod, disk, wr, acked, gcn, apierr, conv, up, dbf>>
 
 (* what the daemon still owes: not the address of a pod whose effective DEL is inside its handler (the address is *)
 (* on its way back to the pool; this is also what a daemon killed now still owes after its restart)          *)
@@ -174,7 +180,7 @@ PutBegin(p, rec) ==
           /\ wr' = [p |-> p, rec |-> rec, by |-> "gc"]
           /\ gc' = [gc EXCEPT !.wrote = TRUE]
           /\ UNCHANGED gcn
-    /\ UNCHANGED <<cloud, pod, disk, acked, rpc, apierr, conv, up>>
+    /\ UNCHANGED <<cloud, pod, disk, acked, rpc, apierr, conv, up, dbf>>
 
 DelBegin(p) ==
     /\ wr = NoWr
@@ -188,7 +194,7 @@ DelBegin(p) ==
           /\ G("C09", GcMayTouch(p))
           /\ wr' = [p |-> p, rec |-> NoRec, by |-> "gc"]
           /\ gc' = [gc EXCEPT !.wrote = TRUE]
-    /\ UNCHANGED <<cloud, pod, disk, acked, rpc, gcn, apierr, conv, up>>
+    /\ UNCHANGED <<cloud, pod, disk, acked, rpc, gcn, apierr, conv, up, dbf>>
 
 WriteEnd(p, ok) ==
     /\ wr.p = p
@@ -202,7 +208,9 @@ WriteEnd(p, ok) ==
     /\ acked' = IF ok /\ wr.by = "gc" /\ wr.rec = NoRec THEN [acked EXCEPT ![p] = NoAck] ELSE acked   \* collected
     /\ gcn' = IF ok /\ wr.rec = NoRec THEN [gcn EXCEPT ![p] = 0] ELSE gcn
     /\ wr' = NoWr
-    /\ UNCHANGED <<cloud, pod, gc, apierr, conv, up>>
+    /\ dbf' = IF wr.by = "rpc" /\ wr.rec # NoRec THEN (IF ok THEN dbf \ {p} ELSE dbf \cup {p}) ELSE dbf
+    /\ gc' = IF ~ok /\ wr.by = "gc" THEN [gc EXCEPT !.dirty = TRUE] ELSE gc        \* a pass whose database write failed is not an undisturbed pass
+    /\ UNCHANGED <<cloud, pod, apierr, conv, up>>
 
 RpcRet(r, ok, code, e, a) ==
     /\ Open(r)
@@ -228,14 +236,14 @@ RpcRet(r, ok, code, e, a) ==
                       THEN [acked EXCEPT ![p] = NoAck]
                    ELSE acked
     /\ rpc' = [rpc EXCEPT ![r] = NoRpc]
-    /\ UNCHANGED <<cloud, pod, disk, wr, gc, gcn, apierr, conv, up>>
+    /\ UNCHANGED <<cloud, pod, disk, wr, gc, gcn, apierr, conv, up, dbf>>
 
 (* ---------------------------------------------------------------- garbage collection *)
 
 GcCall ==
     /\ up /\ gc.st = "idle"
     /\ gc' = [IdleGc EXCEPT !.st = "called"]
-    /\ UNCHANGED <<cloud, pod, disk, wr, acked, rpc, gcn, apierr, conv, up>>
+    /\ UNCHANGED <<cloud, pod, disk, wr, acked, rpc, gcn, apierr, conv, up, dbf>>
 
 (* The pass holds the service lock (exclusive) and read the node-local pod list. *)
 LocalPods(live, err) ==
@@ -243,7 +251,7 @@ LocalPods(live, err) ==
     /\ ~err => live = { p \in Pods : pod[p].loc = "run" }                                            \* (I)
     /\ gc' = [gc EXCEPT !.st = "in", !.live = live, !.lerr = err]
     /\ rpc' = [r \in Rpcs |-> IF rpc[r].st = "in" THEN [rpc[r] EXCEPT !.st = "outG", !.snap = disk[rpc[r].p]] ELSE rpc[r]]
-    /\ UNCHANGED <<cloud, pod, disk, wr, acked, gcn, apierr, conv, up>>
+    /\ UNCHANGED <<cloud, pod, disk, wr, acked, gcn, apierr, conv, up, dbf>>
 
 PodExist(p, exist, err) ==
     /\ gc.st \in {"in", "out"}
@@ -251,7 +259,7 @@ PodExist(p, exist, err) ==
     /\ err = apierr                                                                                  \* (I)
     /\ ~err => exist = pod[p].api                                                                    \* (I)
     /\ gc' = [gc EXCEPT !.exist[p] = IF err THEN "err" ELSE IF exist THEN "yes" ELSE "no"]
-    /\ UNCHANGED <<cloud, pod, disk, wr, acked, rpc, gcn, apierr, conv, up>>
+    /\ UNCHANGED <<cloud, pod, disk, wr, acked, rpc, gcn, apierr, conv, up, dbf>>
 
 GcRet(err) ==
     /\ gc.st \in {"called", "in", "out"}
@@ -261,12 +269,14 @@ GcRet(err) ==
           /\ gcn' = [p \in Pods |-> IF due(p) THEN 1 ELSE IF disk[p] = NoRec THEN 0 ELSE gcn[p]]
           /\ conv' = (clean /\ ~gc.wrote /\ \A r \in Rpcs : ~Open(r))
     /\ gc' = IdleGc
-    /\ UNCHANGED <<cloud, pod, disk, wr, acked, rpc, apierr, up>>
+    /\ UNCHANGED <<cloud, pod, disk, wr, acked, rpc, apierr, up, dbf>>
 
 (* ---------------------------------------------------------------- observations *)
 
-OwnersAgree(own, d, ak) ==
-    /\ \A x \in own : x.p \in Pods /\ d[x.p] # NoRec /\ d[x.p].e = x.e /\ d[x.p].a = x.a             \* no owner without a record
+(* ex: pods whose ADD failed at the database write. The address such an ADD leaves with the pool until the retry or *)
+(* the next restart is outside the quantifiers of C04 (no database faults), C05 (restart) and C09 (lenient).       *)
+OwnersAgree(own, d, ak, ex) ==
+    /\ \A x \in own : x.p \in ex \/ (x.p \in Pods /\ d[x.p] # NoRec /\ d[x.p].e = x.e /\ d[x.p].a = x.a)   \* no owner without a record
     /\ \A p \in Pods : (AckLiveIn(ak, p) /\ ~Vanished(p)) => [e |-> ak[p].e, a |-> ak[p].a, p |-> p] \in own   \* an acknowledged pod (still there) owns its address
 
 (* Quiescent: no request, no pass, no write in progress.  own = the pool's own owner table. *)
@@ -275,7 +285,7 @@ Obs(diskobs, memobs, own, cl) ==
     /\ cl = cloud                                                                                    \* (I) fake and specification agree
     /\ G("C05", diskobs = disk)                                                                      \* what was acknowledged is on disk
     /\ G("C05", memobs = diskobs)                                                                    \* the mirror equals the disk
-    /\ GA(OwnersAgree(own, disk, acked))
+    /\ GA(OwnersAgree(own, disk, acked, dbf))
     /\ UNCHANGED vars
 
 AckedAfterKill == Owed
@@ -288,15 +298,15 @@ Crash ==
     /\ rpc' = [r \in Rpcs |-> NoRpc]
     /\ gc' = IdleGc
     /\ conv' = FALSE
-    /\ UNCHANGED <<cloud, pod, disk, wr, gcn, apierr>>
+    /\ UNCHANGED <<cloud, pod, disk, wr, gcn, apierr, dbf>>
 
 (* First snapshot of the daemon started again from the bolt file and the cloud. *)
 Restart(diskobs, memobs, own) ==
     /\ ~up
     /\ G("C05", diskobs \in DiskAfterKill)                                                           \* acknowledged writes are durable, the unfinished one atomic
     /\ G("C05", memobs = diskobs)
-    /\ G("C05", OwnersAgree(own, diskobs, acked))                                                    \* acknowledged pods own their address again, nothing else is owned
-    /\ disk' = diskobs /\ wr' = NoWr /\ up' = TRUE
+    /\ G("C05", OwnersAgree(own, diskobs, acked, {}))                                                    \* acknowledged pods own their address again, nothing else is owned
+    /\ disk' = diskobs /\ wr' = NoWr /\ up' = TRUE /\ dbf' = {}
     /\ gcn' = [p \in Pods |-> 0]
     /\ UNCHANGED <<cloud, pod, acked, rpc, gc, apierr, conv>>
 
@@ -307,7 +317,7 @@ Probe(diskobs, own, adds) ==
     /\ LET ak == AckedAfterKill
            n == Len(adds)
        IN /\ G("C05", diskobs \in DiskAfterKill)
-          /\ G("C05", OwnersAgree(own, diskobs, ak))
+          /\ G("C05", OwnersAgree(own, diskobs, ak, {}))
           /\ G("C05", \A i \in 1..n : adds[i].ok =>
                  /\ (AckLiveIn(ak, adds[i].p) => SameAlloc(adds[i], ak[adds[i].p]))                  \* same address again
                  /\ \A q \in Pods \ {adds[i].p} : AckLiveIn(ak, q) => ~SameAlloc(adds[i], ak[q])     \* never another pod's
@@ -318,7 +328,7 @@ Probe(diskobs, own, adds) ==
 RawBegin(p, rec) ==
     /\ wr = NoWr
     /\ wr' = [p |-> p, rec |-> rec, by |-> "raw"]
-    /\ UNCHANGED <<cloud, pod, disk, acked, rpc, gc, gcn, apierr, conv, up>>
+    /\ UNCHANGED <<cloud, pod, disk, acked, rpc, gc, gcn, apierr, conv, up, dbf>>
 
 -----------------------------------------------------------------------------
 (* State invariants (theorems of the guarded specification) *)
